@@ -239,6 +239,37 @@ async fn serve_request<IB: Body>(
     }
 }
 
+/// Verification hook (built only with `--cfg erbium_verif`): runs the request
+/// handler on a synthetic GET-style request from the given client address and
+/// returns the status code and the body, without any socket.
+#[cfg(erbium_verif)]
+pub mod verif {
+    pub async fn serve(
+        conf: crate::config::SharedConfig,
+        method: &str,
+        path: &str,
+        addr: erbium_net::addr::NetAddr,
+        dhcp: std::sync::Arc<crate::dhcp::DhcpService>,
+    ) -> (u16, Vec<u8>) {
+        use http_body_util::BodyExt as _;
+        let req = hyper::Request::builder()
+            .method(method)
+            .uri(path)
+            .body(http_body_util::Empty::<hyper::body::Bytes>::new())
+            .unwrap();
+        let resp = super::serve_request(conf, req, std::sync::Arc::new(addr), dhcp)
+            .await
+            .unwrap();
+        let status = resp.status().as_u16();
+        let body = resp.into_body().collect().await.unwrap().to_bytes().to_vec();
+        (status, body)
+    }
+
+    pub fn tokio_to_unixaddr(src: &tokio::net::unix::SocketAddr) -> erbium_net::addr::UnixAddr {
+        erbium_net::addr::tokio_to_unixaddr(src)
+    }
+}
+
 async fn run_listener<L>(
     conf: crate::config::SharedConfig,
     dhcp: std::sync::Arc<crate::dhcp::DhcpService>,
